@@ -10,10 +10,30 @@ use std::path::Path;
 
 pub struct C16;
 
+thread_local! {
+    /// `-C encoding=<label>` of the current case (empty: default UTF-8)
+    static ENC_ARGS: std::cell::RefCell<Vec<String>> = const { std::cell::RefCell::new(Vec::new()) };
+}
+
 fn args_with(cfg: &Cfg, extra: &[&str]) -> Vec<String> {
     let mut v = cfg.to_cli_args();
+    ENC_ARGS.with(|e| v.extend(e.borrow().iter().cloned()));
     v.extend(extra.iter().map(|s| s.to_string()));
     v
+}
+
+fn encode_for_case(text: &str) -> Option<Vec<u8>> {
+    ENC_ARGS.with(|e| {
+        let e = e.borrow();
+        match e.get(1).and_then(|a| a.strip_prefix("encoding=")) {
+            None => Some(text.as_bytes().to_vec()),
+            Some(label) => {
+                let enc = encoding_rs::Encoding::for_label(label.as_bytes())?;
+                let (b, _, bad) = enc.encode(text);
+                if bad { None } else { Some(b.into_owned()) }
+            }
+        }
+    })
 }
 
 /// variants of a text with more / less / equal whitespace than its formatted form
@@ -52,15 +72,21 @@ fn run_bin(ctx: &Ctx, cwd: &Path, args: Vec<String>, stdin: Option<Vec<u8>>, as_
 
 fn check_content(ctx: &Ctx, out: &mut CaseOut, dir: &Path, cfg: &Cfg, label: &str, content: &str, rng: &mut Rng) -> Vec<Failure> {
     let mut fails = vec![];
+    // the file's bytes in the case's encoding
+    let Some(content_bytes) = encode_for_case(content) else {
+        out.count("variant_not_encodable_skipped");
+        return fails;
+    };
+    let content: &[u8] = &content_bytes;
     // reference: stdin -> stdout of the same binary
     out.evals += 1;
-    let r = run_bin(ctx, dir, args_with(cfg, &[]), Some(content.as_bytes().to_vec()), false);
+    let r = run_bin(ctx, dir, args_with(cfg, &[]), Some(content.to_vec()), false);
     if !r.ok() {
         out.count("reference_run_failed");
         return fails;
     }
     let reference = r.stdout;
-    let formatted_already = reference == content.as_bytes();
+    let formatted_already = reference == content;
     out.count(if reference.len() < content.len() { "result_shorter" } else if reference.len() > content.len() { "result_longer" } else { "result_same_length" });
     let sub = dir.join(format!("d{}", rng.below(1000)));
     let _ = std::fs::create_dir_all(&sub);
@@ -73,19 +99,21 @@ fn check_content(ctx: &Ctx, out: &mut CaseOut, dir: &Path, cfg: &Cfg, label: &st
     let before = cli::stat(&file);
     out.evals += 1;
     let r = run_bin(ctx, dir, args_with(cfg, &["--mode", "stdout", &rel]), None, false);
-    if std::fs::read(&file).ok().as_deref() != Some(content.as_bytes()) || cli::stat(&file) != before {
+    if std::fs::read(&file).ok().as_deref() != Some(content) || cli::stat(&file) != before {
         fails.push(Failure { class: "stdout-mode-wrote", detail: format!("{label}: stdout mode changed the file (bytes/mtime/inode)") });
     }
+    // stdout mode on files prints UTF-8 whatever the file's encoding: compare only for UTF-8 cases
     let mut expect = format!("{rel}:\n").into_bytes();
     expect.extend_from_slice(&reference);
     expect.push(b'\n');
-    if r.ok() && r.stdout != expect {
+    let utf8_case = ENC_ARGS.with(|e| e.borrow().is_empty());
+    if utf8_case && r.ok() && r.stdout != expect {
         fails.push(Failure { class: "stdout-mode-differs", detail: format!("{label}: stdout mode printed {:?}, expected header + the stdin->stdout result {:?}", short(&String::from_utf8_lossy(&r.stdout), 120), short(&String::from_utf8_lossy(&expect), 120)) });
     }
     // ---- check mode
     out.evals += 1;
     let r = run_bin(ctx, dir, args_with(cfg, &["--mode", "check", &rel]), None, false);
-    if std::fs::read(&file).ok().as_deref() != Some(content.as_bytes()) || cli::stat(&file) != before {
+    if std::fs::read(&file).ok().as_deref() != Some(content) || cli::stat(&file) != before {
         fails.push(Failure { class: "check-mode-wrote", detail: format!("{label}: check mode changed the file") });
     }
     if r.ok() != formatted_already {
@@ -93,7 +121,7 @@ fn check_content(ctx: &Ctx, out: &mut CaseOut, dir: &Path, cfg: &Cfg, label: &st
     }
     // check mode on stdin
     out.evals += 1;
-    let r = run_bin(ctx, dir, args_with(cfg, &["--mode", "check"]), Some(content.as_bytes().to_vec()), false);
+    let r = run_bin(ctx, dir, args_with(cfg, &["--mode", "check"]), Some(content.to_vec()), false);
     if r.ok() != formatted_already {
         fails.push(Failure { class: "check-mode-status", detail: format!("{label}: check mode on stdin exit status {:?}, content formatted: {formatted_already}", r.code) });
     }
@@ -111,7 +139,7 @@ fn check_content(ctx: &Ctx, out: &mut CaseOut, dir: &Path, cfg: &Cfg, label: &st
     };
     out.count(&format!("path_form.{}", ["file", "directory", "glob", "files-from"][form]));
     out.evals += 1;
-    let mut a = cfg.to_cli_args();
+    let mut a = args_with(cfg, &[]);
     a.extend(path_args);
     let r = run_bin(ctx, dir, a, None, false);
     let after = std::fs::read(&file).unwrap_or_default();
@@ -204,16 +232,22 @@ impl Prop for C16 {
             }
             return out;
         }
-        let (text, kind) = if rng.chance(3, 4) { (common::well_formed(ctx, &mut rng, 25).text, "well-formed") } else { common::any_input(ctx, &mut rng) };
+        let (mut text, kind) = if rng.chance(3, 4) { (common::well_formed(ctx, &mut rng, 25).text, "well-formed") } else { common::any_input(ctx, &mut rng) };
+        // one third of the cases: a legacy encoding configured with -C encoding=..., and content that
+        // has non-ASCII characters of that encoding
+        ENC_ARGS.with(|e| e.borrow_mut().clear());
+        if rng.chance(1, 3) {
+            let (label, sample) = *rng.pick(&[("windows-1252", "äöüß€"), ("windows-1251", "Ждйщ"), ("gbk", "漢字语"), ("shift_jis", "あいカ漢"), ("iso-8859-2", "łčřő"), ("euc-kr", "한글")]);
+            if text.is_ascii() || encoding_rs::Encoding::for_label(label.as_bytes()).is_some_and(|e| !e.encode(&text).2) {
+                text = format!("// {sample}   \n{text}\nconst   S{}  =  '{sample}' ;\n", rng.below(100));
+                ENC_ARGS.with(|e| *e.borrow_mut() = vec!["-C".to_string(), format!("encoding={label}")]);
+                out.count(&format!("encoding.{label}"));
+            }
+        }
         // the binary treats its input as UTF-8; NUL bytes etc. are fine
         out.count(&format!("gen.{kind}"));
-        let r = run_bin(ctx, dir, args_with(&cfg, &[]), Some(text.as_bytes().to_vec()), false);
-        out.evals += 1;
-        if !r.ok() {
-            out.count("reference_run_failed");
-            return out;
-        }
-        let formatted = String::from_utf8_lossy(&r.stdout).to_string();
+        // formatted text via the library (the variants are derived from it)
+        let Some((formatted, _)) = common::run(&mut out, &cfg, &text) else { return out };
         for (label, content) in variants(&mut rng, &formatted, &text) {
             let fails = check_content(ctx, &mut out, dir, &cfg, label, &content, &mut rng);
             for f in fails {
